@@ -73,4 +73,19 @@ CLAIMS = {
              "clears the mode's delays. Firing instants and check() truthfulness over histories are not decided.",
         technique="unit inference over all delay call sites; CFG must-pass/dominance pairing; def-use of the stored callback record",
         ref="4/C13"),
+    "C12": dict(
+        text="Static analysis of structural necessary conditions of config validation: each of the ~1700 entries of "
+             "config_spec.yaml uses an item type validate_config_item handles and validator tokens present in "
+             "validator_list, gives a (param) only to validators that consume it (and the right shape: min,max / "
+             "enum members incl. the default / existing device collection / existing sub-spec) and none to validators "
+             "that require one; validate_item forwards the param and rejects unknown tokens; numeric validators reach "
+             "the range helper on every value-returning path and the helper raises on both bounds; unknown keys are "
+             "checked on every path unless the spec allows others and raise unless the permissive machine option is "
+             "set; provided values are validated against the spec of their own key, missing ones get their own "
+             "default, required ones raise; build_spec deep-copies, a section overrides its bases, nothing but "
+             "load_mode_config_spec stores into the shared spec and validation never writes the cached merged spec; "
+             "the time-suffix cascade strips len(suffix), has no shadowed branch and the SI multipliers; secs/ms "
+             "sibling validators use the converter of their unit. Type soundness over all YAML values is not decided.",
+        technique="table agreement (spec file vs validator table vs signatures); CFG must-pass; who-may-write; suffix-shadowing and constant folding",
+        ref="4/C12"),
 }
